@@ -83,10 +83,11 @@ def _make(lib, k, fname, sig, on_call):
                 arr[j].s = b
             else:
                 raise ShimError("unknown arg code " + c)
-        if on_call is not None:
-            on_call(fname, args)
         ret = VerifRet()
-        lib.verif_call(k, arr, C.byref(ret))
+        if on_call is not None:
+            on_call(fname, args, lambda: lib.verif_call(k, arr, C.byref(ret)))
+        else:
+            lib.verif_call(k, arr, C.byref(ret))
         if rcode == "v":
             return None
         if rcode == "d":
